@@ -8,6 +8,7 @@ package c15
 
 import (
 	"encoding/json"
+	"fmt"
 	"math/big"
 	"os"
 	"sync"
@@ -92,6 +93,66 @@ func TestRaceFree(t *testing.T) {
 		}()
 	}
 	wg.Wait()
+	// shape "subscriber queries the pool": the miner's worker handles TxPreEvents on the goroutine that also
+	// asks the pool for its pending set. A replacement (same nonce, price bump) submitted meanwhile must
+	// return, and its event must arrive (the pool must not wait for its subscribers while holding its lock).
+	var fails []string
+	for i := 0; i < 20 && len(fails) == 0; i++ {
+		sc := cscenarios()[0]
+		cw := newCWorld(w, sc)
+		evs := make(chan core.TxPreEvent) // unbuffered, like a busy worker
+		sub := cw.p.SubscribeTxPreEvent(evs)
+		got := make(chan int, 1)
+		stop := make(chan struct{})
+		go func() {
+			n := 0
+			for {
+				select {
+				case <-evs:
+					n++
+					cw.p.Stats()
+					cw.p.Pending()
+				case <-stop:
+					got <- n
+					return
+				}
+			}
+		}()
+		ret := make(chan struct{})
+		go func() {
+			cw.p.AddRemote(w.tx("A0p100"))
+			cw.p.AddRemote(w.tx("A0p110"))
+			close(ret)
+		}()
+		select {
+		case <-ret:
+		case <-time.After(60 * time.Second):
+			fails = append(fails, "AddRemote of a same-nonce replacement has not returned after 60 s while a subscriber that queries the pool is handling transaction events (pool lock held while the event is sent)")
+		}
+		if len(fails) == 0 {
+			deadline := time.Now().Add(60 * time.Second)
+			for {
+				if pend, _ := cw.p.Stats(); pend == 1 {
+					break
+				}
+				if time.Now().After(deadline) {
+					break
+				}
+				time.Sleep(time.Millisecond)
+			}
+			close(stop)
+			<-got
+			sub.Unsubscribe()
+			cw.p.Stop()
+		}
+	}
+	iters["subscriber-queries-the-pool"] = 20
+	for _, f := range fails {
+		fmt.Println("RACEPASS-FAIL " + f)
+	}
+	if len(fails) > 0 {
+		t.Fail()
+	}
 	if p := os.Getenv("VERIF_RACE_OUT"); p != "" {
 		b, _ := json.Marshal(map[string]interface{}{"shapes": len(iters), "iterations": iters, "wall_s": time.Since(t0).Seconds()})
 		os.WriteFile(p, b, 0o644)
